@@ -18,6 +18,11 @@
 //!     DD:r:off:cnt delete_data    RD:r:off:cnt:data replace_data   ST:r:off split_text   PD:r:data PI set_data
 //!     NZ:r  Element::normalize (in the view of the case: adjacent Text children are merged in the raw view only)
 //!     Q:d:expr   XPath node-set query on document d, edited tree vs re-parse of its serialisation
+//!     read-only maps of a DocumentType (r, src = handle of a Document -- its `doc_type()` is taken -- or of a DocumentType node):
+//!     ES:r:src:name  r.entities().set_named_item(src.entities().get_named_item(name))    ESI:r:src:i  ... (src.entities().item(i))
+//!     ER:r:name      r.entities().remove_named_item(name)
+//!     TS:r:src:name / TSI:r:src:i / TR:r:name   the same on notations()
+//!                    (`na`: no document type, or the argument does not exist -- the call cannot be written)
 //!     X:d:v      the XPath evaluator's document table of the CURRENT (edited) document d in view v
 //!                (0 raw, 1 merged text), built by the table builder of the `xpath` domain
 //!                (`super::xpath::Table::build`): result `x:<v>:<facts>:<n>+<row>+<row>...`, rows in the
@@ -48,8 +53,8 @@ use std::panic::{catch_unwind, AssertUnwindSafe};
 use std::rc::Rc;
 use xml_dom as dom;
 use xml_dom::{
-    AsNode, CharacterDataMut, DocumentMut, ElementMut,
-    NamedNodeMapMut, Node, NodeList, NodeMut, ProcessingInstructionMut, TextMut, XmlNode,
+    AsNode, CharacterDataMut, Document as _, DocumentMut, DocumentType as _, ElementMut,
+    NamedNodeMap as _, NamedNodeMapMut, Node, NodeList, NodeMut, ProcessingInstructionMut, TextMut, XmlNode,
 };
 use xml_info as info;
 use xml_info::{
@@ -593,6 +598,12 @@ fn describe(st: &St) -> String {
             hlist(st, *d, &attrs),
             ents
         ));
+        // the names in `notations()` of a document type (not part of the store: a fact the model driver passes
+        // with the TS / TSI ops, see Model/DomReadOnly.v)
+        if let XmlNode::DocumentType(t) = n {
+            let l: Vec<String> = dom::DocumentType::notations(t).iter().map(|x| enc(&x.node_name())).collect();
+            out.push(format!("T{}:{}", h, if l.is_empty() { "~".to_string() } else { l.join(".") }));
+        }
     }
     out.join(" ")
 }
@@ -826,6 +837,59 @@ fn query_ranks_ctx(doc: &dom::XmlDocument, expr: &str, ctx: &mut xml_xpath::eval
     r.unwrap_or_else(|_| ("panic".to_string(), "panic".to_string()))
 }
 
+/// the document type a read-only-map op works on: `doc_type()` of a Document handle, or the DocumentType node itself
+fn doctype_of(n: &XmlNode) -> Option<dom::XmlDocumentType> {
+    match n {
+        XmlNode::Document(d) => d.doc_type(),
+        XmlNode::DocumentType(t) => Some(t.clone()),
+        _ => None,
+    }
+}
+
+/// ES / ESI / ER / TS / TSI / TR: the mutators of the maps `DocumentType::entities()` / `notations()`
+/// (`f` = fields of the op, `r` = receiver handle, `src` = handle the argument is taken from)
+fn run_ro_op(f: &[&str], r: &XmlNode, src: Option<XmlNode>) -> Res {
+    fn class<T>(x: dom::error::Result<Option<T>>) -> Res {
+        match x {
+            Ok(None) => Res::Opt(Ok(None)),
+            Ok(Some(_)) => Res::Query("ok:item".to_string()),
+            Err(e) => Res::Opt(Err(e)),
+        }
+    }
+    let t = match doctype_of(r) {
+        Some(t) => t,
+        None => return Res::Na,
+    };
+    let name = || -> String { f.get(3).and_then(|x| dec(x)).unwrap_or_default() };
+    let idx = || -> usize { f.get(3).and_then(|x| x.parse::<usize>().ok()).unwrap_or(usize::MAX) };
+    match f[0] {
+        "ER" => class(t.entities().remove_named_item(&f.get(2).and_then(|x| dec(x)).unwrap_or_default()).map(Some)),
+        "TR" => class(t.notations().remove_named_item(&f.get(2).and_then(|x| dec(x)).unwrap_or_default()).map(Some)),
+        _ => {
+            let s = match src.as_ref().and_then(doctype_of) {
+                Some(s) => s,
+                None => return Res::Na,
+            };
+            match f[0] {
+                "ES" | "ESI" => {
+                    let arg = if f[0] == "ES" { s.entities().get_named_item(&name()) } else { s.entities().item(idx()) };
+                    match arg {
+                        Some(e) => class(t.entities().set_named_item(e)),
+                        None => Res::Na,
+                    }
+                }
+                _ => {
+                    let arg = if f[0] == "TS" { s.notations().get_named_item(&name()) } else { s.notations().item(idx()) };
+                    match arg {
+                        Some(e) => class(t.notations().set_named_item(e)),
+                        None => Res::Na,
+                    }
+                }
+            }
+        }
+    }
+}
+
 fn run_op(st: &mut St, op: &str) -> Res {
     let f: Vec<&str> = op.split(':').collect();
     let h = |i: usize| -> Option<(usize, XmlNode)> {
@@ -1009,6 +1073,7 @@ fn run_op(st: &mut St, op: &str) -> Res {
             }
             _ => Res::Na,
         },
+        "ES" | "ESI" | "ER" | "TS" | "TSI" | "TR" => run_ro_op(&f, &r, h(2).map(|x| x.1)),
         "Q" => {
             let d = match &r {
                 XmlNode::Document(d) => d.clone(),
